@@ -116,7 +116,7 @@ PROPS = {
     "C12": dict(
         cases_mod="CasesText", check_fn="check_C12", shard=200,
         rule='values x patterns from the unambiguous-field grammar (at most one field per value kind, one-letter numeric fields and y/yyy/yyyy followed by a non-digit literal or quoted text, no narrow names, period markers with 12-hour fields, zone symbols of every width, quoted separators); observed: format -> parse -> format and the parsed value. Non-trivial: every case.',
-        explanation="Proved for the model (props/C12.v, FieldProofs.v, RoundTrip.v): formatter and parser agree on every symbol and width (C12_date_symbols, C12_time_symbols) and on every item incl. multi-byte literals, quoted text and escaped apostrophes (C12_item); for DateTime values and unambiguous patterns carrying a full date, time of day and zone, parse(format(v,p),p) is Ok with the same offset and the same instant truncated to the written precision, and formatting it again reproduces the text (C12_datetime_partial); likewise for Date (full date) and Time (full time and zone) with their own parse loops (C12_date_partial, C12_time_partial). Not proved: patterns carrying only part of a date or time of day, or no zone - tie only. The run performs format -> parse -> format on the implementation for all three types.",
+        explanation="Proved for the model (props/C12.v, FieldProofs.v, RoundTrip.v): formatter and parser agree on every symbol and width (C12_date_symbols, C12_time_symbols) and on every item incl. multi-byte literals, quoted text and escaped apostrophes (C12_item); for DateTime values and unambiguous patterns carrying a full date, time of day and zone, parse(format(v,p),p) is Ok with the same offset and the same instant truncated to the written precision, and formatting it again reproduces the text (C12_datetime_partial); likewise for Date (full date) and Time (full time and zone) with their own parse loops (C12_date_partial, C12_time_partial); for patterns carrying any part of a date, any part of a time of day and a zone or none (month/day/day-of-year next to a year; era, quarter, week, weekday next to a full date; b next to hour, minute, second), parse(format(v,p),p) is Ok with the defaults 0001-01-01, 00:00:00, UTC filled in, valid, and formatting it again reproduces the text (C12_datetime_any, C12_date_any, C12_time_any). The run performs format -> parse -> format on the implementation for all three types.",
         trusted_base=TB_COMMON + ["serde / serde_json (C20) from the offline cargo cache"], assumptions=ASSUME_COMMON + ["the current year read by the two-letter year parser is a parameter (now_year) passed by the harness"],
     ),
     "C13": dict(
